@@ -173,6 +173,9 @@ func (ex *Exec) ropeHasPrefix(r *Rope, p *Term) *Term {
 					if !strings.ContainsRune(jsonFirstChars(n), rune(ps[len(c)])) {
 						return tFalse
 					}
+					if len(ps) == len(c)+1 && jsonFirstChars(n) == ps[len(c):] {
+						return tTrue
+					}
 				}
 			}
 		}
